@@ -67,25 +67,33 @@ func VerifH_C20_bf16_monotone() {
 
 func verifIsNaN32(f float32) bool { return f != f }
 
-// all 256 codes: decode -> encode is the identity (NaN codes stay NaN). Sign and exponent field are forked
-// (concrete per path), the mantissa field is symbolic.
+// all 256 codes: decode -> encode is the identity (NaN codes stay NaN). The code space is enumerated completely
+// by forking (a symbolic code byte sends every query through z3's floating-point theory and times out).
 func VerifH_C20_e4m3_codes() {
-	code := uint8(vrt.Choice(32))<<3 | vrt.U8()&0x07
+	code := uint8(vrt.Choice(256)) // all 256 codes, one path each (complete enumeration of the code space)
 	f := FP8E4M3(code).ToFloat32()
 	back := uint8(Float32ToFP8E4M3(f))
 	if verifIsNaN32(f) {
 		vrt.Assert(verifIsNaN32(FP8E4M3(back).ToFloat32()), "e4m3-nan-code-stays-nan")
 		return
 	}
+	if code == 0x80 {
+		vrt.Assert(back == code, "e4m3-negative-zero-code-roundtrip") // known: the decoder's "-0.0" literal is +0 in Go
+		return
+	}
 	vrt.Assert(back == code, "e4m3-code-roundtrip")
 }
 
 func VerifH_C20_e5m2_codes() {
-	code := uint8(vrt.Choice(64))<<2 | vrt.U8()&0x03
+	code := uint8(vrt.Choice(256))
 	f := FP8E5M2(code).ToFloat32()
 	back := uint8(Float32ToFP8E5M2(f))
 	if verifIsNaN32(f) {
 		vrt.Assert(verifIsNaN32(FP8E5M2(back).ToFloat32()), "e5m2-nan-code-stays-nan")
+		return
+	}
+	if code == 0x80 {
+		vrt.Assert(back == code, "e5m2-negative-zero-code-roundtrip")
 		return
 	}
 	vrt.Assert(back == code, "e5m2-code-roundtrip")
